@@ -2,7 +2,7 @@
     IMPLEMENTATION's selection result (fed back to the model by the harness) against the
     model's pool and the session of the call. *)
 From Coq Require Import List NArith ZArith Bool.
-From Verif Require Import Base.BStr Txcache.TxTypes Txcache.Selection.
+From Verif Require Import Base.BStr Txcache.TxTypes Txcache.SenderList Txcache.Selection Txcache.Pool.
 Import ListNotations.
 Open Scope N_scope.
 
@@ -63,3 +63,8 @@ Definition c06_viewsb (cfg : config) (lastSize : Z) (v : pviews) : bool :=
   (negb (evictionEnabled cfg) ||
    ((v_cntTx v <=? countThreshold cfg + 1)%Z && (v_cntSenders v <=? countThreshold cfg + 1)%Z &&
     (v_numBytes v <=? numBytesThreshold cfg + lastSize)%Z)).
+
+(** the model's OWN views of a pool, over the sender alphabet [alpha] of the history (what the harness reads off the implementation
+    through Keys / GetTransactionsPoolForSender / CountTx / NumBytes / CountSenders) *)
+Definition views_of (alpha : list bytes) (p : pool) : pviews :=
+  mkViews (keys p) (map (fun a => (a, map hash (pool_for_sender p a))) alpha) (cntTx p) (numBytes p) (cntSenders p).
